@@ -250,6 +250,11 @@ func checkCase(t stats.TB, part string, c *evmgen.Case, o *evmgen.Outcome) *case
 	cr.label("regime:" + evmgen.RegimeName(env.PrimeTerminusNumber))
 	cr.label("mode:" + c.Mode)
 	cr.label("tx:" + c.Tx.Kind)
+	if o.Broken != "" {
+		cr.fps = append(cr.fps, "C05/post-state-unhashable")
+		stats.Violation(t, part, "C05/post-state-unhashable", "the post-state cannot be hashed: "+o.Broken+" (an account was debited below zero)", dump(c, o, nil))
+		return cr
+	}
 	if res.Err != nil {
 		cr.label("tx-rejected")
 		cr.label("rejected:" + errClass(res.Err))
@@ -699,7 +704,9 @@ func TestC05_Ops(t *testing.T) {
 	rapid.Check(t, func(rt *rapid.T) {
 		cfg := evmgen.ExportCfg()
 		cfg.Excl = excl
-		mode := []string{evmgen.ModeTracedBypass, evmgen.ModeTracedBypass, evmgen.ModeTracedEnforced}[rapid.IntRange(0, 2).Draw(rt, "c05mode")]
+		// access-list enforcement re-enabled from the tracer = block-processing semantics (majority);
+		// the bypass mode is what vm.Config.Debug alone gives (RPC tracing) and reaches deeper nesting
+		mode := []string{evmgen.ModeTracedEnforced, evmgen.ModeTracedEnforced, evmgen.ModeTracedBypass, evmgen.ModeTracedEnforced, evmgen.ModeTracedBypass}[rapid.IntRange(0, 4).Draw(rt, "c05mode")]
 		c := evmgen.GenCase(rt, evmgen.CaseOpts{Cfg: cfg, AllowETX: true, ForceMode: mode, ContractPct: 72})
 		o, err := c.Run()
 		if err != nil {
